@@ -207,6 +207,7 @@ type Driver struct {
 	Tier     string
 	Seed     int64
 	Root     string // /verif
+	Out      string // where evidence and replays are written
 	RunDir   string
 	Merged   WorkerResult
 	hashes   map[uint64]struct{}
@@ -220,6 +221,22 @@ func verifRoot() string {
 		return r
 	}
 	return "/verif"
+}
+
+// outRoot is where evidence, replays and run directories go: the verif root for the registered
+// checks, a scratch directory for self-test runs against a scratch copy of the library.
+func outRoot() string {
+	if r := os.Getenv("VERIF_OUT"); r != "" {
+		return r
+	}
+	return verifRoot()
+}
+
+func binDir() string {
+	if r := os.Getenv("VERIF_BIN"); r != "" {
+		return r
+	}
+	return filepath.Join(verifRoot(), ".build")
 }
 
 func seedFromEnv() int64 {
@@ -239,10 +256,11 @@ func drive(propID, tier string) int {
 	}
 	d := &Driver{Prop: p, Tier: tier, Seed: seedFromEnv(), Root: verifRoot(), hashes: map[uint64]struct{}{}, started: time.Now()}
 	d.Merged.Stats = map[string]int64{}
-	d.RunDir = filepath.Join(d.Root, ".build", "run", propID+"-"+tier)
+	d.Out = outRoot()
+	d.RunDir = filepath.Join(binDir(), "run", propID+"-"+tier)
 	os.RemoveAll(d.RunDir)
 	os.MkdirAll(d.RunDir, 0o755)
-	os.MkdirAll(filepath.Join(d.Root, "evidence"), 0o755)
+	os.MkdirAll(filepath.Join(d.Out, "evidence"), 0o755)
 
 	plans := p.Plan(tier)
 	for phase, pl := range plans {
@@ -320,9 +338,9 @@ func (d *Driver) merge(r *WorkerResult) {
 
 func binPath(root string, race bool) string {
 	if race {
-		return filepath.Join(root, ".build", "vcheck-race")
+		return filepath.Join(binDir(), "vcheck-race")
 	}
-	return filepath.Join(root, ".build", "vcheck")
+	return filepath.Join(binDir(), "vcheck")
 }
 
 // runWorker runs one worker process; returns its (possibly partial) result, whether it
@@ -584,13 +602,13 @@ func (d *Driver) finish() int {
 	exit := 0
 	if len(real) > 0 {
 		exit = 1
-		os.MkdirAll(filepath.Join(d.Root, "replays"), 0o755)
+		os.MkdirAll(filepath.Join(d.Out, "replays"), 0o755)
 		seen := map[string]bool{}
 		for i, v := range real {
 			if i >= 10 {
 				break
 			}
-			path := filepath.Join(d.Root, "replays", fmt.Sprintf("%s-%s-seed%d-%d.json", p.ID, d.Tier, d.Seed, i))
+			path := filepath.Join(d.Out, "replays", fmt.Sprintf("%s-%s-seed%d-%d.json", p.ID, d.Tier, d.Seed, i))
 			rep := map[string]any{"property": p.ID, "tier": d.Tier, "seed": d.Seed, "case": v.Case, "idx": v.Idx, "detail": v.Detail, "replay": v.Replay, "kf_signature": v.KF}
 			data, _ := json.MarshalIndent(rep, "", " ")
 			os.WriteFile(path, data, 0o644)
@@ -668,7 +686,7 @@ func (d *Driver) finish() int {
 		"violations":  len(real),
 	}
 	data, _ := json.MarshalIndent(ev, "", " ")
-	os.WriteFile(filepath.Join(d.Root, "evidence", p.ID+".json"), data, 0o644)
+	os.WriteFile(filepath.Join(d.Out, "evidence", p.ID+".json"), data, 0o644)
 
 	fmt.Printf("%s %s seed=%d: evaluations=%d distinct_nontrivial=%d violations=%d known=%d inconclusive=%d wall=%.1fs\n",
 		p.ID, d.Tier, d.Seed, d.Merged.Evaluations, len(d.hashes), len(real), len(all)-len(real), len(d.Merged.Inconclusive), wall)
